@@ -88,7 +88,11 @@ impl Graph {
             .sorted_by(|a, b| {
                 let primary = b.node_rank.cmp(&a.node_rank);
                 if primary == Ordering::Equal {
-                    a.key.cmp(&b.key)
+                    // paths that tie on rank and key are ordered by what they show, not by node ids (which follow the edit history)
+                    a.key
+                        .cmp(&b.key)
+                        .then_with(|| a.search_text.cmp(&b.search_text))
+                        .then_with(|| a.line.cmp(&b.line))
                 } else {
                     primary
                 }
